@@ -369,7 +369,95 @@ func (e *Engine) prepareGoalMode2(hyp, goal *Term, dropQ bool, strict bool) []*T
 		return r
 	}
 	h2 := inst(hyp, true)
+	for round := 0; round < 2 && !strict; round++ {
+		// second round: the instances just produced read arrays at shifted
+		// positions (k+8, k+28: a buffer sliced and copied several times); the
+		// hypotheses about those buffers are instantiated at "skolem + constant"
+		// for every such position (at most 8 new terms)
+		have := map[*Term]bool{}
+		for _, t := range insts {
+			have[t] = true
+		}
+		var extra []*Term
+		vis := map[*Term]bool{}
+		var walk func(t *Term)
+		walk = func(t *Term) {
+			if vis[t] || len(extra) >= 20 || t.Op == "forall" || t.Op == "exists" {
+				return
+			}
+			vis[t] = true
+			if t.Op == "select" && len(t.Args) == 2 {
+				if k := skPlusConst(c, t.Args[1], skset); k != nil && !have[k] {
+					have[k] = true
+					extra = append(extra, k)
+				}
+			}
+			if t.Op == "app" && strings.HasPrefix(t.Name, "spec:") {
+				for _, a := range t.Args {
+					if k := skPlusConst(c, a, skset); k != nil && !have[k] && len(extra) < 20 {
+						have[k] = true
+						extra = append(extra, k)
+					}
+				}
+			}
+			for _, a := range t.Args {
+				walk(a)
+			}
+		}
+		walk(g2)
+		walk(h2)
+		if len(extra) == 0 {
+			break
+		}
+		{
+			insts = append(insts, extra...)
+			for k := range memo {
+				delete(memo, k)
+			}
+			budget = 3000
+			h2 = inst(hyp, true)
+		}
+	}
 	return []*Term{c.And(h2, c.Not(g2))}
+}
+
+// skPlusConst: for an index that is a sum containing exactly one skolem
+// constant, that skolem plus the integer constants of the sum (nil if the sum
+// has no constant part or no skolem).
+func skPlusConst(c *Ctx, idx *Term, sk map[*Term]bool) *Term {
+	var the *Term
+	var k int64
+	n := 0
+	ok := true
+	var fl func(t *Term, depth int)
+	fl = func(t *Term, depth int) {
+		if depth > 4 {
+			return
+		}
+		switch {
+		case t.Op == "+":
+			for _, a := range t.Args {
+				fl(a, depth+1)
+			}
+		case sk[t]:
+			the = t
+			n++
+		case t.Op == "int" && t.IVal.IsInt64():
+			k += t.IVal.Int64()
+		}
+	}
+	fl(idx, 0)
+	if !ok || n > 1 || k == 0 || k > 4096 || k < -4096 {
+		return nil
+	}
+	if n == 0 {
+		// a fixed position (byte 27 of a header): the constant itself
+		if k < 0 {
+			return nil
+		}
+		return c.IntC(k)
+	}
+	return c.Add(the, c.IntC(k))
 }
 
 // varBase strips the uniquifying suffixes from a bound-variable name ("k?14!2" -> "k").
